@@ -99,6 +99,8 @@ def cfg_oracle(case, impl):
             break                    # the process is gone: nothing is issued any more
         o = outs[k].lstrip("!")
         kind = ev[0]
+        if kind == "a":
+            continue                 # the evaluator's answers: nothing the property's oracle depends on
         if kind == "ue":
             if not o.startswith("UE"):
                 return None
@@ -213,6 +215,7 @@ def run(chk, failed):
     n_cfg = 30 if not chk.thorough else 600
     n_cfg_only = 90 if not chk.thorough else 4000
     n_iso = 5 if not chk.thorough else 60
+    n_r3 = 6 if not chk.thorough else 80
     cases, tags = [], []
     for ln in C.read_corpus(chk.pid):
         cases.append(ln); tags.append(["corpus"])
@@ -239,6 +242,14 @@ def run(chk, failed):
     # one child process each, run in parallel with the rest
     for ln in G.FIXED_ISO:
         cases.append(ln); tags.append(["fixed", "unlock-error" if " ue " in ln else "storage-stall"])
+    # round 3: evaluator replies through the real response path (child processes), re-locks inside the interval
+    for ln in G.FIXED_R3:
+        cases.append(ln); tags.append(["fixed", "replies" if " a " in ln else "relock-inside-interval"])
+    for i in range(n_r3):
+        ln, tg = G.gen_cfg_replies(rng, i)
+        cases.append(ln); tags.append(tg)
+        ln, tg = G.gen_cfg_relock(rng, i)
+        cases.append(ln); tags.append(tg)
     for i in range(n_iso):
         ln, tg = G.gen_cfg_unlock_error(rng, i)
         cases.append(ln); tags.append(tg)
@@ -253,7 +264,9 @@ def run(chk, failed):
                 "viper.Set or a TOML document), then the loop it configured, Started, under the scripted lock and the virtual clock "
                 "(minInterval, doEvaluations and the group list all produced by the real code), ticks at shortest+0/+1 ns; "
                 "isolated cfg scenarios in child processes: lock.Unlock() failing after an expiry (first / later cycle), a group "
-                "refresh whose storage request (cluster list / consumer list) is not taken within the 1 s timeout; "
+                "refresh whose storage request (cluster list / consumer list) is not taken within the 1 s timeout, evaluator "
+                "requests answered through the real reply path (incident opens / closes while the ticks go on); re-locks that "
+                "complete well inside the shortest interval; "
                 "non-trivial = at least two modules, or a scenario with a request and a tick without; distinct by the case line")
     impl, model, mism = chk.differential("evalloop", "evalloop", "TestVerifProbeEvalloop", cases, name="evalloop",
                                          project=seq_of, timeout=1500)
@@ -376,7 +389,7 @@ def report_cfg(chk, cfgs, badmi):
     if cfgs:
         # scenarios are observed through short real-time windows (a tick: 8 ms + quiescence); a disagreement is re-run
         # once with three times the windows before it counts (the first dozen are enough for the verdict)
-        cfgs = cfgs[:12]
+        cfgs = sorted(cfgs, key=lambda x: 0 if cfg_oracle(x[1], x[2]) else 1)[:12]   # stable: oracle violations first
         chk.notes.append("%d configured-loop case(s) disagreed on the first run and were re-run with VERIF_GRACE_MULT=3" % len(cfgs))
         impl2, model2, mism2 = chk.differential("evalloop", "evalloop", "TestVerifProbeEvalloop", [c for _, c, _, _ in cfgs],
                                                 name="evalloop_cfg_retry", project=seq_of,
